@@ -2,7 +2,7 @@
    This file only restates the property theorems; proofs are in chan/Discipline.v (trace
    theory of the lock discipline), srv/SrvC10.v (server model) and srv/SrvC10b.v (every run of
    the server model, read as lock / Send / Close / Recv events, is well-locked and disciplined). *)
-(* client side: see coq/cli/CliC10.v *)
+(* client side: module Cli at the end of this file (lemmas in coq/cli/CliC10.v) *)
 From Coq Require Import List NArith ZArith Bool Arith.
 From RecordUpdate Require Import RecordUpdate.
 From JV Require Import Bytes Msg SrvModel SrvLemmas SrvC09 Discipline SrvC10 SrvC10b.
@@ -136,3 +136,52 @@ Theorem c10_sendreq_method_nonempty : forall c tr s oss,
   forall ok id m p, In (OSendReq ok id m p) (concat oss) -> m <> [].
 Proof. exact sendreq_method_nonempty. Qed.
 Print Assumptions c10_sendreq_method_nonempty.
+
+(* ------------------------------------------------------------------------------------------- *)
+(* The client's side of the channel (client model coq/cli/CliModel.v; lemmas in coq/cli/CliC10.v) *)
+From JV Require CliModel CliLemmas CliInv CliProofs CliWg CliStep CliStop CliC10.
+Module Cli.
+Import CliModel CliLemmas CliInv CliProofs CliWg CliStep CliStop CliC10.
+
+(* C. Close exactly once per NewClient: the channel is closed exactly when the client has stopped, the
+      history holds that many Close calls, and never more than one *)
+Theorem c10_close_once_cli : forall c tr s, traces_to c tr s ->
+  closes s = (if is_some (err s) then 1 else 0)
+  /\ cnt is_oclose (hist s) = closes s
+  /\ closes s <= 1.
+Proof. exact CliC10.c10_close_once_cli. Qed.
+Print Assumptions c10_close_once_cli.
+
+(* D. every Send / Close of the client happens inside one critical section of the client mutex
+      (step_raw of LRelSend = Client.send, LRelCbReply = the callback reply, LRelClose / LRelRecvErr =
+      stopLocked), at most one per critical section, none in the unhooked wake-ups, none once the client
+      has stopped: no two Sends overlap, no Send overlaps Close, nothing is sent on a closed channel *)
+Theorem c10_cli_chan_ops_in_critical_sections : forall c tr s, traces_to c tr s ->
+  forall l s' os, step s l = Some (s', os) ->
+  exists s1 o1 o2, step_raw s l = Some s1 /\ hist s1 = hist s ++ o1 /\ hist s' = hist s1 ++ o2 /\ os = o1 ++ o2
+    /\ cnt is_chanop o2 = 0
+    /\ cnt is_chanop o1 <= 1 /\ cnt is_chanop os <= 1
+    /\ (cnt is_chanop os = 1 -> cs_label l = true /\ err s = None)
+    /\ (forall ok b ms, In (OSendReq ok b ms) os -> exists n, l = LRelSend n)
+    /\ (forall ok i o, In (OSendRsp ok i o) os -> exists cb, l = LRelCbReply cb)
+    /\ (In OClose os -> (exists n, l = LRelClose n) \/ l = LRelRecvErr).
+Proof. exact CliC10.c10_cli_chan_ops_in_critical_sections. Qed.
+Print Assumptions c10_cli_chan_ops_in_critical_sections.
+
+Theorem c10_cli_no_chanop_after_stop : forall c tr s, traces_to c tr s -> err s <> None ->
+  forall l s' os, step s l = Some (s', os) -> cnt is_chanop os = 0.
+Proof. exact CliC10.c10_cli_no_chanop_after_stop. Qed.
+Print Assumptions c10_cli_no_chanop_after_stop.
+
+(* E. a single receiver: only the reader's wake-up consumes input, one record at a time and only while it
+      is in Recv; no API call, critical section or environment action does; after the reader has exited
+      nothing is ever received *)
+Theorem c10_cli_single_reader : forall c tr s, traces_to c tr s ->
+  (forall l s1, step_raw s l = Some s1 -> exists q, ch_in s1 = ch_in s ++ q)
+  /\ (forall s1, settle1 s = Some s1 ->
+        (ch_in s1 = ch_in s /\ rd s1 = rd s) \/ (rd s = RIdle /\ exists f, ch_in s = f :: ch_in s1))
+  /\ (rd s = RExited -> forall l s' os, step s l = Some (s', os) ->
+        rd s' = RExited /\ exists q, ch_in s' = ch_in s ++ q).
+Proof. exact CliC10.c10_cli_single_reader. Qed.
+Print Assumptions c10_cli_single_reader.
+End Cli.
